@@ -1,8 +1,11 @@
 CONSTANT MaxAdds = 4
+CONSTANT MaxOps = 4
 SPECIFICATION Spec
 INVARIANT ViewCoherent
 INVARIANT EveryListRepresented
+INVARIANT HeaderCoherent
 INVARIANT StrictUnlessAllowed
 INVARIANT EmitTable
+INVARIANT EmitHist
 PROPERTY ListsOnlyGrow
 CHECK_DEADLOCK FALSE
